@@ -592,12 +592,11 @@ class DiscreteStridedIntervalSet(StridedInterval):
         for si in dsis._si_set:
             r = self._intersection_with_si(si)
 
-            if isinstance(r, StridedInterval):
-                if not r.is_empty:
-                    new_si_set.add(r)
-
-            else:  # r is a DiscreteStridedIntervalSet
+            if isinstance(r, DiscreteStridedIntervalSet):
                 new_si_set |= r._si_set
+
+            elif not r.is_empty:
+                new_si_set.add(r)
 
         if len(new_si_set):
             ret = DiscreteStridedIntervalSet(bits=self.bits, si_set=new_si_set)
